@@ -94,6 +94,22 @@ func genCase(t *rapid.T) Case {
 
 func libDigest(p *authenticode.PECOFFBinary) []byte { return p.Hash(crypto.SHA256) }
 
+
+// scribblePadding uses the exported padding helper the way a caller building its own tables does - asks for padding
+// and then writes into what it got - before the library is handed an image: what PaddingBytes returns belongs to the
+// caller, so nothing the library computes afterwards may depend on it.
+func scribblePadding(v int) {
+	for _, n := range []int{v, v + 1, v + 3, v + 5, 1} {
+		for _, bs := range []int{8, 512} {
+			b, k := authenticode.PaddingBytes(n, bs)
+			for i := range b {
+				b[i] = 0xff - byte(i)
+			}
+			_ = k
+		}
+	}
+}
+
 func checkCase(c Case) error {
 	ids := append([]gen.Identity{}, gen.FixedIdents()...)
 	extra, err := gen.ParseIdent(c.ExtraKey, c.ExtraCert)
@@ -130,6 +146,7 @@ func checkCase(c Case) error {
 		}
 	}
 
+	scribblePadding(len(orig))
 	bin, err := authenticode.Parse(bytes.NewReader(orig))
 	if err != nil {
 		return fmt.Errorf("Parse rejects a well-formed image: %v", err)
